@@ -676,4 +676,18 @@ func runFixedConc(c *run.Ctx, st *concStats) {
 		{{Op: "add", IDs: []int{2}}}, {{Op: "del", IDs: []int{3}}}}
 	checkHistory(c, u, cs, hist, st)
 	c.Case("conc fixed-delete-overlapping-subtx-add", true, nil)
+
+	// second witness, one client: the expiry of a pending box removes the index entry of a sub tx that was accepted
+	// on its own after the delete of an absent box had unlinked it; the next DelTxs resets the storage (same ops as
+	// the sequential witness "fixed-orphan-wiped-by-reset", judged by the interval checker)
+	cs2 := &ConcCase{Mon: "conc", U: []TxSpec{{ID: 0, Exp: far}, {ID: 1, Exp: far}, {ID: 2, Exp: far}, {ID: 3, Exp: concT0 + 5, Subs: []int{0, 1}}, {ID: 4, Exp: far, Subs: []int{0, 2}}}}
+	late := SeqOp{Op: "get", Time: concT0 + 10, Size: concSize}
+	cs2.Progs = [][]SeqOp{{{Op: "add", IDs: []int{3}}, {Op: "del", IDs: []int{4}}, {Op: "add", IDs: []int{0}}, late, {Op: "del", IDs: []int{1}}, late}}
+	u2, err := BuildUniverse(cs2.U)
+	if err != nil {
+		c.Inconclusive("fixed concurrent case: " + err.Error())
+		return
+	}
+	checkHistory(c, u2, cs2, execConc(u2, cs2), st)
+	c.Case("conc fixed-orphan-wiped-by-reset", true, nil)
 }
